@@ -17,7 +17,7 @@ SPEC = {
                      'random_asts': 'until the per-shard time budget (540 s)'},
     },
     'floor': {'quick': 200000, 'thorough': 2000000},
-    'required_counters': ['must_match', 'must_not_match', 'api_consistency_checks', 'posix_class_evaluations'],
+    'required_counters': ['must_match', 'must_not_match', 'api_consistency_checks', 'posix_class_evaluations', 'bracket_templates'],
     'budget': {'quick': 45, 'thorough': 540},
     'shard_timeout': {'quick': 400, 'thorough': 1500},
     'assumptions': [
@@ -38,8 +38,33 @@ def flagsets(idx):
         yield ('EXTMATCH',) + dot + case + unix
 
 
-def check_pattern(ctx, toks, fnames, names, api_sample=False, noescape=()):
-    pat = gen.ser(toks, noescape)
+def S(neg, *items):
+    return ('set', neg, tuple(items), '!')
+
+
+# bracket expressions whose spelling the serialiser never produces: unescaped hyphens in the positions where the
+# documentation gives them a meaning (first, last, right after a range), escaped range end points, `]` first
+BRACKET_TEMPLATES = [
+    ('[a-\\c-b]', S(False, ('r', 'a', 'c'), ('c', '-'), ('c', 'b'))),
+    ('[a-c-b]', S(False, ('r', 'a', 'c'), ('c', '-'), ('c', 'b'))),
+    ('[c-\\z-ba]', S(False, ('r', 'c', 'z'), ('c', '-'), ('c', 'b'), ('c', 'a'))),
+    ('[\\a-c-e]', S(False, ('r', 'a', 'c'), ('c', '-'), ('c', 'e'))),
+    ('[a-\\c-\\e]', S(False, ('r', 'a', 'c'), ('c', '-'), ('c', 'e'))),
+    ('[!a-\\c-b]', S(True, ('r', 'a', 'c'), ('c', '-'), ('c', 'b'))),
+    ('[a-\\cd-f]', S(False, ('r', 'a', 'c'), ('r', 'd', 'f'))),
+    ('[-a]', S(False, ('c', '-'), ('c', 'a'))), ('[a-]', S(False, ('c', 'a'), ('c', '-'))),
+    ('[!-a]', S(True, ('c', '-'), ('c', 'a'))), ('[]a]', S(False, ('c', ']'), ('c', 'a'))),
+    ('[!]a]', S(True, ('c', ']'), ('c', 'a'))), ('[]-a]', S(False, ('r', ']', 'a'))),
+    ('[+--]', S(False, ('r', '+', '-'))), ('[--0]', S(False, ('r', '-', '0'))),
+    ('[a-c[:digit:]-z]', S(False, ('r', 'a', 'c'), ('p', 'digit'), ('c', '-'), ('c', 'z'))),
+    ('[[:digit:]-a]', S(False, ('p', 'digit'), ('c', '-'), ('c', 'a'))),
+    ('[\\]-a]', S(False, ('r', ']', 'a'))), ('[a\\-c]', S(False, ('c', 'a'), ('c', '-'), ('c', 'c'))),
+    ('[a-\\-]', S(False)),   # reversed range a..-  : matches nothing
+]
+
+
+def check_pattern(ctx, toks, fnames, names, api_sample=False, noescape=(), text=None):
+    pat = gen.ser(toks, noescape) if text is None else text
     flags = flags_of(fnames)
     dot = 'DOTMATCH' in fnames
     icase = 'IGNORECASE' in fnames and 'CASE' not in fnames
@@ -194,6 +219,19 @@ def run(ctx):
                 with ctx.case(label=(gen.ser(toks), fnames)):
                     check_pattern(ctx, toks, fnames, names, api_sample=(idx % 20 == 0))
     ctx.count('enumerated_patterns_seen', idx)
+    # ---- bracket templates -----------------------------------------------------------------------
+    for bi, (btext, bset) in enumerate(BRACKET_TEMPLATES):
+        if not ctx.mine(bi):
+            continue
+        for pre, post in (((), ()), ((('lit', 'x'),), ()), ((), (('star',),)), ((('grp', '@', ((('lit', 'x'),), ())),), (('lit', 'y'),))):
+            toks = pre + ((bset,) if bset[2] else (('set', False, (('r', 'b', 'a'),), '!'),)) + post
+            text = gen.ser(pre) + btext + gen.ser(post)
+            for fnames in flagsets(bi):
+                names = ['a', 'b', 'c', 'd', 'e', 'f', 'z', '-', ']', '+', ',', '0', '5', '\\', 'A', 'C', '.', '^', '!']
+                names = [gen.derive(ctx.rng_for('bt', bi), pre, 'x') + n + (gen.derive(ctx.rng_for('bt2', bi), post, 'xy') or '') for n in names] + ['x', 'xy', 'y']
+                with ctx.case(label=(text, fnames)):
+                    check_pattern(ctx, toks, fnames, [n for n in names if n], api_sample=True, text=text)
+                ctx.count('bracket_templates')
     # ---- EXTMATCH off ------------------------------------------------------------------
     for k in range(60 if quick else 600):
         if not ctx.mine(k):
@@ -228,5 +266,5 @@ def replay(ctx, w):
     noescape = frozenset(w.get('noescape') or '')
     fnames = tuple(w['flags'])
     names = [w['name']] if 'name' in w else list(w.get('names', ()))
-    check_pattern(ctx, toks, fnames, names, api_sample='names' in w, noescape=noescape)
+    check_pattern(ctx, toks, fnames, names, api_sample='names' in w, noescape=noescape, text=w.get('pattern'))
     return ctx.violations or None
